@@ -19,17 +19,19 @@
     engine accepts, loading it on both sides with the MySQL reader model and diffing returns, and `MigrationUp` /
     `MigrationDown` return and print nothing (reader fidelity C05.indexes_and_foreign_keys gives `Inv` and `Fresh`).
 
-  * `equal_schemas_from_scripts` — **however each side was loaded** (schemas without PRIMARY KEY declarations): two
+  * `equal_schemas_from_scripts` — **however each side was loaded** (column definitions without an inline PRIMARY KEY;
+    keys declared at table level — `PRIMARY KEY (…)`, `ADD PRIMARY KEY` — are covered): two
     *different* scripts of any length the reference engine accepts whose reference schemas are equivalent — the same
     tables, per table the same columns by name with the same type and the same options up to order, the same indexes up
-    to order, the same foreign-key names; column order, statement order, ALTER histories, option order and index-type
+    to order, the same primary key, the same foreign-key names; column order, statement order, ALTER histories, option order and index-type
     spelling are free — load into models that `Migration.Diff` finds equal: it returns, and both migrations are empty.
     (Proofs/OptsGood: every option of a loaded column is an option of some column definition of the script or a bare
     foreign-key mark, so `Table.Diff`'s option comparison — multiset of rendered keys — agrees with the comparison of
     the reference option lists up to order; Proofs/CrossLoad.)
 
-  Missing: the same with PRIMARY KEY declarations: a key has two representations in the model (recorded finding
-  `pk-inline-vs-table-level`), and MODIFY COLUMN of a key column loses the key option (recorded finding).
+  Missing: the same with an *inline* PRIMARY KEY option: the model keeps it as an option of the column, so a key has two
+  representations (recorded finding `pk-inline-vs-table-level`), and MODIFY COLUMN of a key column loses the option
+  (recorded finding).
   That part is covered by correspondence + the executable predicate `Spec.c03` on the implementation's output for
   every generated pair, including the equal-schema pairs loaded by different routes.
 -/
@@ -107,21 +109,21 @@ theorem same_script_empty (g : Globals) (hg : g.dialect = .mysql) (rc : Bool) (s
   simp only [hr, bind, Except.bind]
   exact hd
 
-/-- two different scripts describing equivalent schemas (no PRIMARY KEY declarations): empty migration, both directions -/
+/-- two different scripts describing equivalent schemas (no inline PRIMARY KEY option): empty migration, both directions -/
 theorem equal_schemas_from_scripts (g : Globals) (hg : g.dialect = .mysql) (rc : Bool) (A B : List Stmt) (dbA dbB : DB)
     (hA : A.all Stmt.elemSafe = true) (hB : B.all Stmt.elemSafe = true)
-    (hpA : A.all Stmt.plain = true) (hpB : B.all Stmt.plain = true)
+    (hpA : A.all Stmt.plainOpts = true) (hpB : B.all Stmt.plainOpts = true)
     (heA : execAll rc [] A = some dbA) (heB : execAll rc [] B = some dbB) (heq : DBEquiv dbA dbB) :
     ∃ d, loadAndDiff g A B = .ok d ∧ d.migrationUp g = .ok (d, []) ∧ d.migrationDown g = .ok (d, []) :=
   equal_schemas_empty g hg rc A B dbA dbB hA hB hpA hpB heA heB heq
 
 -- non-vacuity of `equal_schemas_from_scripts`: the same schema written as one CREATE TABLE with indexes, and as a
 -- history (another column order, a column added later with its options in another order, a detour column dropped
--- again, an index dropped and re-created, the default index type spelled out)
+-- again, the primary key added by ALTER TABLE instead of in CREATE TABLE, the default index type spelled out)
 def exA2 : List Stmt :=
   [.createTable "t" 0 [{ name := "a", typ := "int(11)", opts := [{ kind := .notNull }, { kind := .default, dflt := .num "1" }] },
                        { name := "b", typ := "varchar(64)", opts := [{ kind := .comment, text := "b's" }] },
-                       { name := "c", typ := "text" }] [],
+                       { name := "c", typ := "text" }] ["a"],
    .createIndex "t" "i_ab" ["a", "b"] true "",
    .createIndex "t" "i_c" ["c"] false ""]
 def exB2 : List Stmt :=
@@ -131,8 +133,9 @@ def exB2 : List Stmt :=
    .createIndex "t" "i_tmp" ["zz"] false "",
    .addColumn "t" { name := "a", typ := "int(11)", opts := [{ kind := .default, dflt := .num "1" }, { kind := .notNull }] } .first,
    .dropColumn "t" "zz",
+   .addPrimaryKey "t" ["a"],
    .createIndex "t" "i_ab" ["a", "b"] true ""]
-example : exA2.all Stmt.elemSafe = true ∧ exB2.all Stmt.elemSafe = true ∧ exA2.all Stmt.plain = true ∧ exB2.all Stmt.plain = true := by decide
+example : exA2.all Stmt.elemSafe = true ∧ exB2.all Stmt.elemSafe = true ∧ exA2.all Stmt.plainOpts = true ∧ exB2.all Stmt.plainOpts = true := by decide
 example : ∃ dbA dbB, execAll true [] exA2 = some dbA ∧ execAll true [] exB2 = some dbB ∧ DBEquiv dbA dbB :=
   ⟨_, _, by rfl, by rfl, dbEquiv_of_B _ _ (by decide)⟩
 example : (execAll true [] exB2).map specView = some [("t", ["a", "c", "b"])] := by decide
